@@ -305,15 +305,17 @@ DecideFame(D, h) == DecideFameSet(D, h, DOMAIN h.pend)
 -----------------------------------------------------------------------------
 (* DecideRoundReceived                                                     *)
 
-\* The first round above the lower bound at which every scan stops: missing,
-\* or not decided (rounds at or below the lower bound are skipped, not stops).
-FirstStop(h) ==
-    LET lo == h.lb + 1
-        stops == { i \in lo..(h.lastRound + 1) :
-                     \/ i > h.lastRound
-                     \/ i \notin DOMAIN h.R
-                     \/ ~RoundDecided(h.R[i], Cardinality(Members(h, i))) }
-    IN  MinOfSet(stops, h.lastRound + 1)
+\* The rounds above the lower bound at which a scan stops: missing, or not
+\* decided (rounds at or below the lower bound are skipped, not stops).  A
+\* round can be decided before an earlier one, so each event stops at the
+\* first such round at or after the start of ITS scan.
+StopRounds(h) ==
+    { i \in (h.lb + 1)..(h.lastRound + 1) :
+         \/ i > h.lastRound
+         \/ i \notin DOMAIN h.R
+         \/ ~RoundDecided(h.R[i], Cardinality(Members(h, i))) }
+
+StopFor(h, stops, i0) == MinOfSet({ s \in stops : s >= i0 }, h.lastRound + 1)
 
 \* the code's loop: i from round(x)+1; a missing round ends it; an undecided
 \* round ends it unless it is at or below the lower bound; the first decided
@@ -342,8 +344,9 @@ RecordReceived(h, es, rrs) ==
          IN  RecordReceived([ h EXCEPT !.E[x].rr = i, !.R[i].rcv = Append(@, x) ], Tail(es), rrs)
 
 DecideRoundReceived(D, h) ==
-    LET stop == FirstStop(h)
-        rrs == Strict([ x \in Range(h.undet) |-> RRScan(D, h, x, h.E[x].rnd + 1, stop) ])
+    LET stops == StopRounds(h)
+        rrs == Strict([ x \in Range(h.undet) |->
+                         RRScan(D, h, x, h.E[x].rnd + 1, StopFor(h, stops, h.E[x].rnd + 1)) ])
         got == SelectSeq(h.undet, LAMBDA x : rrs[x] # -1)
         keep == SelectSeq(h.undet, LAMBDA x : rrs[x] = -1)
     IN  IF got = << >> THEN h
